@@ -6,8 +6,8 @@ from concurrent.futures import ThreadPoolExecutor
 
 VERIF = os.path.dirname(os.path.dirname(os.path.abspath(__file__)))
 # which checks to run for a seed, beyond the check of the property it was written against
-ALSO = {"C01": ["C06", "C12", "C13"], "C03": ["C06"], "C05": ["C06"], "C08": ["C06"], "C02": ["C06", "C05"], "C09": ["C06", "C07"],
-        "C04": ["C05", "C06"], "C11": ["C02", "C15"], "C15": ["C06"], "C16": ["C09"], "C13": ["C01"]}
+ALSO = {"C01": ["C06", "C12", "C13", "C07"], "C03": ["C06"], "C05": ["C06"], "C08": ["C06"], "C02": ["C06", "C05", "C15"], "C09": ["C06", "C07"],
+        "C04": ["C05", "C06", "C19", "C03"], "C11": ["C02", "C15", "C06"], "C15": ["C06"], "C16": ["C09"], "C13": ["C01"], "C06": ["C03"]}
 CLAIMED = set(json.load(open(os.path.join(VERIF, "MANIFEST.json")))and [c["property_id"] for c in json.load(open(os.path.join(VERIF, "MANIFEST.json")))["checks"]])
 
 
